@@ -463,6 +463,10 @@ def compare(geo, blockmap, real, rep, res):
             diffs.append('distance of %r: model (%r, %r) real %r' % (nm, surd_val(m0), surd_val(m1), dist)); break
         if not close(area, surd_val(ma)):
             diffs.append('area of %r: model %r real %r' % (nm, surd_val(ma), area)); break
+        if math.isnan(dc) and cen.get(nm[0]) is not None and cen.get(nm[0]) == cen.get(nm[1]):
+            # coincident centres (two blocks collapsed by a non-injective block map): 0/0 in numpy, x/0 = 0 in the model
+            res.count('degenerate:coincident-centres')
+            continue
         if not close(dc, surd_val(mc), RTOL, CTOL):
             diffs.append('dircos of %r: model %r real %r' % (nm, surd_val(mc), dc)); break
     return diffs
